@@ -727,6 +727,14 @@ def correspondence(ctx: Ctx):
     from omegaconf import OmegaConf
 
     schema_list = sorted(info.schema_classes.items())
+    bases: dict = {}
+
+    def _structured(cls):
+        # `OmegaConf.merge` deep-copies its first argument, so one structured instance per class serves all cases
+        if cls not in bases:
+            bases[cls] = OmegaConf.structured(cls)
+        return bases[cls]
+
     rng = ctx.rng
     for _ in range(ctx.budget(500, 6000)):
         si = rng.randrange(len(schema_list))
@@ -748,7 +756,7 @@ def correspondence(ctx: Ctx):
 
         def impl(cls=cls, tree=tree):
             try:
-                OmegaConf.merge(OmegaConf.structured(cls), OmegaConf.create(tree))
+                OmegaConf.merge(_structured(cls), OmegaConf.create(tree))
                 return "ok"
             except Exception as e:  # noqa: BLE001
                 return "err " + type(e).__name__
@@ -761,7 +769,7 @@ def correspondence(ctx: Ctx):
     def merge_impl(cls, tree):
         def impl():
             try:
-                OmegaConf.merge(OmegaConf.structured(cls), OmegaConf.create(tree))
+                OmegaConf.merge(_structured(cls), OmegaConf.create(tree))
                 return "ok"
             except Exception as e:  # noqa: BLE001
                 return "err " + type(e).__name__
@@ -779,7 +787,7 @@ def correspondence(ctx: Ctx):
                        for c in core)
             if prim and not ctx.thorough:
                 continue
-            for v in ([1], [], {}, None, "x", 3, True, 2.5, {"bogus_key_zz": 1}, [[1], {"x": 1}, None]):
+            for v in ([1], {}, None, "x", 3, 2.5, {"bogus_key_zz": 1}, [[1], {"x": 1}, None]):
                 tree = {f.name: v}
                 yield {"line": line("validate", [si], enc_val(tree, info)), "impl": merge_impl(cls, tree),
                        "key": ("validate", si, repr(tree)), "nontrivial": True,
